@@ -444,7 +444,11 @@ impl Deb822 {
             } else {
                 paragraph.1
             };
-            inject(&mut builder, new_paragraph.0);
+            // A paragraph taken from the end of an unterminated document may now be
+            // followed by another one
+            let node = SyntaxNode::new_root_mut(new_paragraph.0.green().into_owned());
+            ensure_trailing_newline(&node);
+            inject(&mut builder, node);
         }
 
         let unterminated_comment = current.last().map(|c| c.kind()) == Some(COMMENT);
